@@ -91,6 +91,16 @@ Group7(b, off) ==
   LET g(i) == IF off + i <= W THEN b[off+i] ELSE 0
   IN g(1) + 2*g(2) + 4*g(3) + 8*g(4) + 16*g(5) + 32*g(6) + 64*g(7)
 
+\* concatenation of a sequence of sequences by balanced divide and conquer: recursion depth
+\* log n and O(n log n) copying (SequencesExt!FlattenSeq recurses once per element and
+\* overflows TLC's stack on a few thousand elements)
+RECURSIVE FlattenRange(_, _, _)
+FlattenRange(seqs, lo, hi) ==
+  IF lo > hi THEN <<>>
+  ELSE IF lo = hi THEN seqs[lo]
+  ELSE LET mid == (lo + hi) \div 2 IN FlattenRange(seqs, lo, mid) \o FlattenRange(seqs, mid + 1, hi)
+Flatten(seqs) == FlattenRange(seqs, 1, Len(seqs))
+
 \* bit k (0-based) of a byte
 BitOfByte(x, k) == (x \div (2^k)) % 2
 =============================================================================
